@@ -270,6 +270,7 @@ func runFetch(c *harness.Ctx) harness.Result {
 		g.Drive([][]string{srcs, nil}, seed)
 		s := &drv.Session{Flags: &drv.Flags{Bools: map[string]bool{"top": true, "functions": true, "flat": true}, Strs: map[string]string{"output": "out", "symbolize": "none"}, Args: srcs}, Fetch: g, Obj: &binutils.Binutils{}}
 		res := s.Run()
+		g.Stop()
 		if res.Panic != "" {
 			return "", fmt.Errorf("panic: %s", res.Panic)
 		}
